@@ -27,7 +27,7 @@ class Inst:
                  tier='quick', pre='', loop_contracts=None, nondet_volatile=False, solvers=('minisat',),
                  timeout=120, unwind=None, extra_cbmc=(), also_enforce=(), note='', kind='proof',
                  replay=None, expect_compile_error=False, opts=None, defines=(), root_pick=None,
-                 canary=True, object_bits=None, globals_init=None, extra_replace=(), pre_defines=''):
+                 canary=True, object_bits=None, globals_init=None, extra_replace=(), pre_defines='', ret='void'):
         self.name = name
         self.params = params          # C++ parameter list of the snippet
         self.expr = expr              # C++ statement(s) using the operation under contract
@@ -54,6 +54,7 @@ class Inst:
         self.canary = canary
         self.object_bits = object_bits
         self.globals_init = globals_init
+        self.ret = ret                            # return type of the snippet function (lemma clients return a value)
         self.pre_defines = pre_defines            # C text emitted before the spec headers are included
         self.extra_replace = list(extra_replace)   # contract stubs declared in `pre` (libc models), replaced at call sites
 
@@ -233,7 +234,7 @@ class Unit:
         s += self.extra_cpp + '\n'
         s += 'namespace rlbox { namespace vinst {\n'
         for it in self.insts:
-            s += 'void %s(%s) { %s }\n' % (it.name, it.params, it.expr)
+            s += '%s %s(%s) { %s }\n' % (it.ret, it.name, it.params, it.expr)
         s += '}}\n'
         return s
 
@@ -338,11 +339,11 @@ class Unit:
         for fid in order:
             if fid != root['id']:
                 protos.append(em.sig_text[fid] + ';')
-        out.append('\n'.join(protos))
         names = em.sig_info[root['id']]['params']
-        contract = subst(clauses_text(it.contract), names)
         if it.pre:
             out.append(subst(it.pre, names, root=rootc))
+        out.append('\n'.join(protos))
+        contract = subst(clauses_text(it.contract), names)
         out.append('%s\n%s\n%s' % (em.sig_text[root['id']], contract, self.loops(em, it, root, em.fn_text[root['id']])))
         for fid in order:
             if fid != root['id']:
@@ -350,6 +351,13 @@ class Unit:
         h = subst(it.harness, names, root=rootc)
         out.append('#ifndef VERIF_NATIVE\nvoid harness(void)\n{\n%s\n#ifdef CANARY\n  __CPROVER_assert(0, "canary: harness end reachable");\n#endif\n}\n#endif' % h)
         text = '\n'.join(out) + '\n'
+
+        def gsub(m):
+            cands = [g for g in em.globals_used if m.group(1) in g]
+            if len(cands) != 1:
+                raise ExtractError('$G(%s): %d matching globals' % (m.group(1), len(cands)))
+            return cands[0]
+        text = re.sub(r'\$G\(([A-Za-z0-9_]+)\)', gsub, text)
         cfile = os.path.join(self.dir, it.name + '.c')
         open(cfile, 'w').write(text)
         self.emitted[it.name] = {
@@ -367,6 +375,8 @@ class Unit:
             cname, o = m.group(1), int(m.group(2))
             key = (fn.get('name'), o)
             lc = it.loop_contracts.get(key)
+            if lc:
+                lc = subst(lc, em.sig_info[fn['id']]['params'])
             return (lc + '\n') if lc else ''
         return re.sub(r'/\*LOOP:([A-Za-z0-9_]+):(\d+)\*/\n', rep, text)
 
@@ -400,6 +410,11 @@ class Unit:
                           loop_contracts=bool(it.loop_contracts), nondet_volatile=it.nondet_volatile,
                           includes=[os.path.join(VERIF, 'include'), self.dir], solvers=it.solvers, timeout=it.timeout,
                           unwind=it.unwind, extra_cbmc=it.extra_cbmc, object_bits=it.object_bits)
+        if res.status in ('ok', 'failed') and it.loop_contracts:
+            # a silently dropped loop contract shows up as missing loop_invariant_step obligations
+            if not any('loop_invariant_step' in n for n in res.obligations):
+                res.status = 'undecided'
+                res.reason = 'loop contract supplied but no loop_invariant_step obligation was generated'
         canary_ok = None
         if it.canary and res.status == 'ok':
             # vacuity guard: the planted false assertion at the end of the harness must FAIL (and only it)
